@@ -32,7 +32,9 @@ __TAPKEE_IMPLEMENTATION(LandmarkMultidimensionalScaling)
         EigendecompositionResult landmarks_embedding =
             eigendecomposition_via(LargestEigenvalues, distance_matrix, parameters[target_dimension]);
         for (IndexType i = 0; i < static_cast<IndexType>(parameters[target_dimension]); i++)
-            landmarks_embedding.first.col(i).array() *= sqrt(landmarks_embedding.second(i));
+            // (eigenvalues of the centered matrix that are not positive do not contribute to its best
+            // positive semi-definite approximation, rounding makes zero eigenvalues slightly negative)
+            landmarks_embedding.first.col(i).array() *= sqrt(std::max<ScalarType>(0, landmarks_embedding.second(i)));
         return TapkeeOutput(triangulate(begin, end, distance, landmarks, landmark_distances_squared,
                                         landmarks_embedding, parameters[target_dimension]),
                             unimplementedProjectingFunction());
